@@ -232,7 +232,9 @@ def line_search(
     if above_iter == 0 and not is_boxed:
         steplength_0 = min(1.0 / np.sqrt(d.dot(d)), max_steplength)
     else:
-        steplength_0 = 1.0
+        # the unit step, unless rounding in max_allowed_steplength made the bound of
+        # the step marginally smaller than 1 (dcsrch rejects a first step > stpmax)
+        steplength_0 = min(1.0, max_steplength)
 
     # Support for python 3.7 and 3.8: the minpack2 wrapper has been removed from
     # scipy from version 1.12 and replaced with a python implementation.
